@@ -4,6 +4,7 @@ import (
 	"bytes"
 	"crypto"
 	_ "crypto/sha256"
+	_ "crypto/sha512"
 	"encoding"
 	"encoding/binary"
 	"errors"
@@ -81,8 +82,15 @@ func callsOut() [][]int {
 }
 
 func hashByName(n string) crypto.Hash {
-	if n == "sha256" {
+	switch n {
+	case "sha256":
 		return crypto.SHA256
+	case "sha384":
+		return crypto.SHA384
+	case "sha512":
+		return crypto.SHA512
+	case "sha512_256":
+		return crypto.SHA512_256
 	}
 	return crypto.BLAKE2b_256
 }
@@ -90,9 +98,28 @@ func hashByName(n string) crypto.Hash {
 func nLeaves(n int) []encoding.BinaryMarshaler {
 	ls := make([]encoding.BinaryMarshaler, n)
 	for i := range ls {
-		ls[i] = &leaf{data: []byte{byte(i), byte(i >> 8), byte(i >> 16), byte(n)}, fail: -1}
+		// the marshaled form is the leaf's own storage and has spare capacity (a digest would fit behind it)
+		buf := make([]byte, 4, 160)
+		copy(buf, []byte{byte(i), byte(i >> 8), byte(i >> 16), byte(n)})
+		ls[i] = &leaf{data: buf, fail: -1}
 	}
 	return ls
+}
+
+func leavesIntact(ls []encoding.BinaryMarshaler, n int) bool {
+	for i, l := range ls {
+		d := l.(*leaf).data
+		if len(d) != 4 || d[0] != byte(i) || d[1] != byte(i>>8) || d[2] != byte(i>>16) || d[3] != byte(n) {
+			return false
+		}
+		// also the spare capacity behind the data belongs to the caller
+		for _, x := range d[:cap(d)][4:] {
+			if x != 0 {
+				return false
+			}
+		}
+	}
+	return true
 }
 
 // foldShape folds the tree shape chosen by the specification with a real hash.
@@ -182,15 +209,19 @@ func vRun(op string, in M) M {
 		ls := nLeaves(n)
 		var root, fold []byte
 		var err error
+		var root2 []byte
 		p := vCatch(func() {
-			root, err = NewHasher(h).Hash(ls)
+			hs := NewHasher(h)
+			root, err = hs.Hash(ls)
+			root2, _ = hs.Hash(ls) // the same leaves again: same root, leaves untouched
 			if n == 0 {
 				fold = h.New().Sum(nil)
 			} else {
-				fold = foldShape(h, in["shape"], ls)
+				fold = foldShape(h, in["shape"], nLeaves(n))
 			}
 		})
-		return M{"ok": err == nil && p == "", "root": vInts(root), "fold": vInts(fold), "panic": p}
+		return M{"ok": err == nil && p == "", "root": vInts(root), "root2": vInts(root2), "fold": vInts(fold), "size": h.Size(),
+			"intact": leavesIntact(ls, n), "panic": p}
 	case "merkle.Big":
 		n := vIntOf(in["n"])
 		h := hashByName(in["hash"].(string))
@@ -199,9 +230,28 @@ func vRun(op string, in M) M {
 		var err error
 		p := vCatch(func() {
 			root, err = NewHasher(h).Hash(ls)
-			bu = bottomUp(h, ls)
+			bu = bottomUp(h, nLeaves(n))
 		})
-		return M{"ok": err == nil && p == "", "root": vInts(root), "bottomup": vInts(bu), "panic": p}
+		return M{"ok": err == nil && p == "", "root": vInts(root), "bottomup": vInts(bu), "size": h.Size(), "intact": leavesIntact(ls, n), "panic": p}
+	case "merkle.Empty": // history on one Hasher: results handed out earlier may be modified by their owners
+		h := hashByName(in["hash"].(string))
+		want := h.New().Sum(nil)
+		ok := true
+		p := vCatch(func() {
+			hs := NewHasher(h)
+			for round := 0; round < 3; round++ {
+				a, _ := hs.Hash(nil)
+				b := hs.EmptyRoot()
+				ok = ok && bytes.Equal(a, want) && bytes.Equal(b, want)
+				for i := range a {
+					a[i] ^= 0xff
+				}
+				for i := range b {
+					b[i] = 0
+				}
+			}
+		})
+		return M{"ok": ok, "panic": p}
 	case "merkle.lp2":
 		n := vIntOf(in["n"])
 		var k uint
@@ -241,7 +291,9 @@ func TestVerifDriver(t *testing.T) {
 				}
 			}
 			do("merkle.Hash", M{"leaves": leaves, "fail": fail})
-			do("merkle.Big", M{"n": 300 + r.Intn(3000), "hash": []string{"sha256", "blake2b"}[k%2]})
+			do("merkle.Big", M{"n": 300 + r.Intn(3000), "hash": []string{"sha256", "blake2b", "sha512", "sha384", "sha512_256"}[k%5]})
+			do("merkle.Big", M{"n": r.Intn(12), "hash": []string{"sha512", "sha384", "sha512_256", "sha256", "blake2b"}[k%5]})
+			do("merkle.Empty", M{"hash": []string{"sha256", "blake2b", "sha512"}[k%3]})
 			do("merkle.lp2", M{"n": 2 + r.Intn(1<<30)})
 		}
 	})
